@@ -785,15 +785,17 @@ Proof.
     { intros l i [sa va] [sb vb] _ HIa Hv. destruct (rnd_ok _ _ _ _ _ _ _ Hv) as [E [G _]].
       apply (Inv_mg _ sa sb HIa). apply mg_of_ext; assumption. }
     destruct (rnd_none_err f stack n e s vs Hp Hm (SCycle p) H I) as [V1|[V2|V3]].
-    + destruct (visit_all_err (fun a => Inv (stack ++ [n]) (fst a)) _ _ _ _ (Pstep _) HI2 V1 I)
+    + destruct (visit_all_err (fun a : sv => Inv (stack ++ [n]) (fst a)) (rnd f (stack ++ [n])) _
+                              (s2, vs ++ ei_vals (g_edge g e)) _ (Pstep _) HI2 V1 I)
         as [i [a0 [Hi [HIa Hv]]]].
       apply (Hsub i a0); [left; rewrite <- J2; exact Hi|exact HIa|exact Hv].
     + destruct V2 as [s3 [vs3 [s5 [new_ins [s6 [V1 [L35 [D56 V2]]]]]]]].
       assert (HI6 : Inv (stack ++ [n]) s6).
       { apply (Inv_mg _ s2 s6 HI2).
-        eapply mg_trans; [apply (visit_all_Inv f _ _ _ _ HI2 V1)|]. cbn [fst].
+        eapply mg_trans; [apply (visit_all_Inv f _ _ (s2, vs ++ ei_vals (g_edge g e)) (s3, vs3) HI2 V1)|]. cbn [fst].
         eapply mg_trans; [eapply mg_of_local; exact L35|eapply mg_of_deps_step; exact D56]. }
-      destruct (visit_all_err (fun a => Inv (stack ++ [n]) (fst a)) _ _ _ _ (Pstep _) HI6 V2 I)
+      destruct (visit_all_err (fun a : sv => Inv (stack ++ [n]) (fst a)) (rnd f (stack ++ [n])) _
+                              (s6, vs3) _ (Pstep _) HI6 V2 I)
         as [i [a0 [Hi [HIa Hv]]]].
       apply (Hsub i a0); [right; apply (proj2 (proj2 (proj2 D56))); exact Hi|exact HIa|exact Hv].
     + discriminate.
@@ -803,6 +805,656 @@ Proof.
     destruct Hst as [->|[Hw Hs]]; [destruct Hx|].
     apply cycle_path_closed; [exact Hp|exists x; split; assumption|exact Hw|exact Hs].
   - cbn [recompute_node_dirty] in H. rewrite Hp, Hm in H. discriminate.
+Qed.
+
+(* ---- lifting to RecomputeDirty / Builder::AddTarget / the loop over the targets *)
+Lemma rnd_top_Inv f n s vs s' vs' :
+  rnd f [] n (s, vs) = SOk (s', vs') -> Inv [] s -> Inv [] s'.
+Proof.
+  intros H HI. destruct (rnd_ok _ _ _ _ _ _ _ H) as [E [G _]].
+  apply (Inv_mg [] s s' HI). apply mg_of_ext; assumption.
+Qed.
+
+Lemma loop_Inv : forall qf queue s found s' vs',
+  recompute_dirty_loop g w qf queue s found = SOk (s', vs') -> Inv [] s -> Inv [] s'.
+Proof.
+  induction qf as [|qf IH]; intros queue s found s' vs' H HI; destruct queue as [|n queue];
+    cbn [recompute_dirty_loop] in H; try discriminate.
+  - inversion H; subst; exact HI.
+  - inversion H; subst; exact HI.
+  - destruct (rnd (scan_fuel g) [] n (s, [])) as [[s1 newv]|c|e|] eqn:Hv; try discriminate.
+    apply (IH _ _ _ _ _ H). apply (rnd_top_Inv _ _ _ _ _ _ Hv HI).
+Qed.
+
+Lemma loop_cycle : forall qf queue s found c,
+  recompute_dirty_loop g w qf queue s found = SCycle c -> Inv [] s -> closed_walk g w c.
+Proof.
+  induction qf as [|qf IH]; intros queue s found c H HI; destruct queue as [|n queue];
+    cbn [recompute_dirty_loop] in H; try discriminate.
+  destruct (rnd (scan_fuel g) [] n (s, [])) as [[s1 newv]|c'|e|] eqn:Hv; try discriminate.
+  - apply (IH _ _ _ _ H). apply (rnd_top_Inv _ _ _ _ _ _ Hv HI).
+  - inversion H; subst c'. apply (rnd_cycle _ _ _ _ _ _ Hv HI). left; reflexivity.
+Qed.
+
+Lemma avt_result : forall vnodes s p,
+  match add_validation_targets g s vnodes p with
+  | ScanOk s' _ => s' = s
+  | ScanCycle _ | ScanLoadErr _ => False
+  | _ => True
+  end.
+Proof.
+  induction vnodes as [|v vnodes IH]; intros s p; cbn [add_validation_targets]; [reflexivity|].
+  destruct (g_producer g v) as [ve|]; [|apply IH].
+  destruct (es_ready (st_edge s ve)); [apply IH|].
+  destruct (plan_add_target g s v p) as [[[r err] p']|]; [|exact I].
+  destruct r; [apply IH|]. destruct err as [[m d]|]; [exact I|reflexivity].
+Qed.
+
+(* Builder::AddTarget: a cycle comes from the dirty scan; a success returns the scanned state *)
+Lemma bat_result s p t :
+  match builder_add_target g w s p t with
+  | ScanCycle c => recompute_dirty g w s t = SCycle c
+  | ScanLoadErr e => recompute_dirty g w s t = SLoadErr e
+  | ScanOk s' _ => exists vn, recompute_dirty g w s t = SOk (s', vn)
+  | _ => True
+  end.
+Proof.
+  unfold builder_add_target.
+  destruct (recompute_dirty g w s t) as [[s1 vn]|c|e|]; [|reflexivity|reflexivity|exact I].
+  assert (HA : forall p0, match add_validation_targets g s1 vn p0 with
+                          | ScanCycle c => SOk (s1, vn) = SCycle c
+                          | ScanLoadErr e => @SOk sv (s1, vn) = SLoadErr e
+                          | ScanOk s' _ => exists vn0, @SOk sv (s1, vn) = SOk (s', vn0)
+                          | _ => True end).
+  { intros p0. pose proof (avt_result vn s1 p0) as Hr.
+    destruct (add_validation_targets g s1 vn p0); try exact I; try contradiction.
+    subst. exists vn; reflexivity. }
+  destruct (match g_producer g t with Some e => negb (es_ready (st_edge s1 e)) | None => true end).
+  - destruct (plan_add_target g s1 t p) as [[[r err] p']|]; [|exact I].
+    destruct r; [apply HA|]. destruct err as [[m d]|]; [exact I|]. exists vn; reflexivity.
+  - apply HA.
+Qed.
+
+Lemma add_targets_sound : forall targets s p c,
+  add_targets g w s p targets = ScanCycle c -> Inv [] s -> closed_walk g w c.
+Proof.
+  induction targets as [|t targets IH]; intros s p c H HI; cbn [add_targets] in H; [discriminate|].
+  pose proof (bat_result s p t) as Hb.
+  destruct (builder_add_target g w s p t) as [c'|m d|e| |s1 p1]; try discriminate.
+  - inversion H; subst c'. apply (loop_cycle _ _ _ _ _ Hb HI).
+  - destruct Hb as [vn Hb]. apply (IH _ _ _ H). apply (loop_Inv _ _ _ _ _ _ Hb HI).
+Qed.
+
+Lemma Inv_init : Inv [] (init_state g).
+Proof.
+  split.
+  - intros e He. cbn in He. discriminate.
+  - intros e. cbn. unfold pot_ins. apply incl_appl, incl_refl.
+Qed.
+
+(* C17, soundness: the reported path is a closed walk of the dependency relation *)
+Theorem C17_sound targets c :
+  scan g w targets = ScanCycle c -> closed_walk g w c.
+Proof. intros H. apply (add_targets_sound _ _ _ _ H Inv_init). Qed.
+
+(* no false positive: an acyclic relation is never rejected as cyclic *)
+Theorem C17_no_false_positive targets :
+  acyclic g w -> forall c, scan g w targets <> ScanCycle c.
+Proof. intros Hac c H. apply (Hac c). apply (C17_sound targets c H). Qed.
+
+(* a ranking is a witness of acyclicity *)
+Lemma walk_cons_inv ins x y l :
+  walk_via g ins (x :: y :: l) -> step_via g ins x y /\ walk_via g ins (y :: l).
+Proof. intros H. inversion H; subst. split; assumption. Qed.
+
+Lemma ranked_walk ins rank : ranked_via g ins rank ->
+  forall l x e, walk_via g ins (x :: l) -> g_producer g x = Some e ->
+  forall e', g_producer g (last (x :: l) 0) = Some e' -> rank e' + length l <= rank e.
+Proof.
+  intros Hr. induction l as [|y l IHl]; intros x e Hwx Hx e' Hl.
+  - cbn [last] in Hl. rewrite Hx in Hl. inversion Hl; subst. cbn [length]. lia.
+  - destruct (walk_cons_inv ins x y l Hwx) as [[ex [Hex Hin]] Hrest].
+    rewrite Hx in Hex. inversion Hex; subst ex.
+    change (last (x :: y :: l) 0) with (last (y :: l) 0) in Hl.
+    destruct (g_producer g y) as [ey|] eqn:Hy.
+    + pose proof (Hr e y ey Hin Hy) as Hlt.
+      pose proof (IHl y ey Hrest Hy e' Hl) as Hle. cbn [length]. lia.
+    + destruct l as [|z l].
+      * cbn [last] in Hl. congruence.
+      * destruct (walk_cons_inv ins y z l Hrest) as [[ey [Hey _]] _]. congruence.
+Qed.
+
+Lemma ranked_acyclic ins rank : ranked_via g ins rank -> acyclic_via g ins.
+Proof.
+  intros Hr p [Hw [Hlen Hhd]].
+  destruct p as [|x l]; [cbn in Hlen; lia|].
+  destruct l as [|y l]; [cbn in Hlen; lia|].
+  destruct (walk_cons_inv ins x y l Hw) as [[e [He Hin]] Hrest].
+  assert (Hl : g_producer g (last (x :: y :: l) 0) = Some e).
+  { assert (Hx : x = last (x :: y :: l) 0) by (unfold hd_error in Hhd; congruence).
+    rewrite <- Hx. exact He. }
+  pose proof (ranked_walk ins rank Hr (y :: l) x e Hw He e Hl) as Hle. cbn [length] in Hle. lia.
+Qed.
+
+(* ================================================================== Part 3: fuel / termination *)
+(* weighted count of the unmarked edges below [k] *)
+Fixpoint wsum (wt : edge -> nat) (s : sstate) (k : nat) : nat :=
+  match k with
+  | O => O
+  | S k' => wsum wt s k' + match mark_of s k' with VisitNone => wt k' | _ => O end
+  end.
+
+Definition nonone (a b : sstate) : Prop := forall e, mark_of b e = VisitNone -> mark_of a e = VisitNone.
+
+Lemma nonone_refl a : nonone a a.
+Proof. intros e H; exact H. Qed.
+Lemma nonone_trans a b c : nonone a b -> nonone b c -> nonone a c.
+Proof. intros H K e He. apply H, K, He. Qed.
+
+Lemma nonone_of_ext a b : ext a b -> nonone a b.
+Proof.
+  intros H e He. specialize (H e). unfold clause in H.
+  destruct (mark_of a e) eqn:Ma; [reflexivity| |]; rewrite H in He; congruence.
+Qed.
+Lemma nonone_of_marks_eq a b : (forall e, mark_of b e = mark_of a e) -> nonone a b.
+Proof. intros H e He. rewrite <- H. exact He. Qed.
+Lemma nonone_of_local e a b : local e a b -> nonone a b.
+Proof. intros L. apply nonone_of_marks_eq, (marks_eq_of_local e); exact L. Qed.
+Lemma nonone_of_deps_step e a b l : deps_step e a b l -> nonone a b.
+Proof.
+  intros [H1 [H2 _]]. apply nonone_of_marks_eq. intros e'.
+  destruct (Nat.eq_dec e' e) as [->|Hne]; [exact H2|]. rewrite (H1 e' Hne). reflexivity.
+Qed.
+
+Lemma wsum_mono wt a b : nonone a b -> forall k, wsum wt b k <= wsum wt a k.
+Proof.
+  intros H. induction k as [|k IH]; cbn [wsum]; [lia|].
+  destruct (mark_of b k) eqn:Mb.
+  - rewrite (H k Mb). lia.
+  - destruct (mark_of a k); lia.
+  - destruct (mark_of a k); lia.
+Qed.
+
+Lemma wsum_flip wt a b e :
+  mark_of a e = VisitNone -> mark_of b e <> VisitNone ->
+  (forall e', e' <> e -> mark_of b e' = mark_of a e') ->
+  forall k, e < k -> wsum wt b k + wt e = wsum wt a k.
+Proof.
+  intros Ha Hb Hoth. induction k as [|k IH]; intros Hlt; [lia|].
+  cbn [wsum]. destruct (Nat.eq_dec k e) as [->|Hne].
+  - rewrite Ha. destruct (mark_of b e) eqn:Mb; [congruence| |].
+    + assert (E : wsum wt b e = wsum wt a e).
+      { clear IH Hlt. assert (G : forall j, j <= e -> wsum wt b j = wsum wt a j).
+        { induction j as [|j IHj]; intros Hj; [reflexivity|]. cbn [wsum].
+          rewrite IHj by lia. rewrite (Hoth j) by lia. reflexivity. }
+        apply G; lia. }
+      lia.
+    + assert (E : wsum wt b e = wsum wt a e).
+      { clear IH Hlt. assert (G : forall j, j <= e -> wsum wt b j = wsum wt a j).
+        { induction j as [|j IHj]; intros Hj; [reflexivity|]. cbn [wsum].
+          rewrite IHj by lia. rewrite (Hoth j) by lia. reflexivity. }
+        apply G; lia. }
+      lia.
+  - rewrite (Hoth k Hne). assert (e < k) by lia. specialize (IH H). lia.
+Qed.
+
+Lemma wsum_one_le s k : wsum (fun _ => 1) s k <= k.
+Proof. induction k as [|k IH]; cbn [wsum]; [lia|]. destruct (mark_of s k); lia. Qed.
+
+Lemma wsum_vals_le s k : wsum (fun e => length (ei_vals (g_edge g e))) s k <= total_vals g k.
+Proof. induction k as [|k IH]; cbn [wsum total_vals]; [lia|]. destruct (mark_of s k); lia. Qed.
+
+Section Fuel.
+Hypothesis Hwf : wf_graph g.
+Notation N := (g_nedges g).
+Notation cnt s := (wsum (fun _ => 1) s N).
+Notation pend s := (wsum (fun e => length (ei_vals (g_edge g e))) s N).
+
+Lemma enter_flip wt n e s :
+  g_producer g n = Some e -> mark_of s e = VisitNone ->
+  wsum wt (stat_outputs w (enter_edge s e) (edge_outs g e)) N + wt e = wsum wt s N.
+Proof.
+  intros Hp Hm. destruct (s2_props e s) as [A2 [M2 _]].
+  apply wsum_flip; [exact Hm|rewrite M2; discriminate| |apply (Hwf n e Hp)].
+  intros e' Hne. rewrite (A2 e' Hne). reflexivity.
+Qed.
+
+Lemma rnd_fuel : forall f stack n s vs, cnt s < f -> rnd f stack n (s, vs) <> SOutOfFuel.
+Proof.
+  induction f as [|f IH]; intros stack n s vs Hc; [lia|].
+  destruct (g_producer g n) as [e|] eqn:Hp.
+  2:{ cbn [recompute_node_dirty]. rewrite Hp. destruct (n_known (st_node s n)); discriminate. }
+  destruct (mark_of s e) eqn:Hm.
+  2:{ cbn [recompute_node_dirty]. rewrite Hp, Hm. discriminate. }
+  2:{ cbn [recompute_node_dirty]. rewrite Hp, Hm. discriminate. }
+  intros H.
+  pose proof (enter_flip (fun _ => 1) n e s Hp Hm) as Hflip. cbn beta in Hflip.
+  set (s2 := stat_outputs w (enter_edge s e) (edge_outs g e)) in *.
+  assert (Pstep : forall l i (a0 a1 : sv), In i l -> cnt (fst a0) < f ->
+                    rnd f (stack ++ [n]) i a0 = SOk a1 -> cnt (fst a1) < f).
+  { intros l i [sa va] [sb vb] _ Ha Hv. destruct (rnd_ok _ _ _ _ _ _ _ Hv) as [E _].
+    cbn [fst] in *. pose proof (wsum_mono (fun _ => 1) sa sb (nonone_of_ext _ _ E) N). lia. }
+  destruct (rnd_none_err f stack n e s vs Hp Hm SOutOfFuel H I) as [V1|[V2|V3]].
+  - assert (Hlt : cnt s2 < f) by lia.
+    destruct (visit_all_err (fun a : sv => cnt (fst a) < f) (rnd f (stack ++ [n])) _
+                            (s2, vs ++ ei_vals (g_edge g e)) SOutOfFuel (Pstep _) Hlt V1 I)
+      as [i [[sa va] [_ [Ha Hv]]]].
+    apply (IH _ _ _ _ Ha Hv).
+  - destruct V2 as [s3 [vs3 [s5 [new_ins [s6 [V1 [L35 [D56 V2]]]]]]]].
+    assert (H23 : cnt s3 <= cnt s2).
+    { apply wsum_mono.
+      set (R := fun a b : sv => nonone (fst a) (fst b)).
+      destruct (visit_all_rel (fun _ => True) R (fun _ _ => True) (rnd f (stack ++ [n]))
+                              (fun a => nonone_refl (fst a))
+                              (fun a b c => nonone_trans (fst a) (fst b) (fst c))
+                              (fun _ _ _ _ _ => I) (ins_of s2 e)) with (a := (s2, vs ++ ei_vals (g_edge g e))) (a' := (s3, vs3))
+        as [_ [HR _]]; [|exact I|exact V1|exact HR].
+      intros i [sa va] [sb vb] _ _ Hv. destruct (rnd_ok _ _ _ _ _ _ _ Hv) as [E _].
+      split; [exact I|]. split; [apply nonone_of_ext; exact E|exact I]. }
+    assert (H36 : cnt s6 <= cnt s3).
+    { apply wsum_mono. eapply nonone_trans; [eapply nonone_of_local; exact L35|eapply nonone_of_deps_step; exact D56]. }
+    assert (Hlt : cnt s6 < f) by lia.
+    destruct (visit_all_err (fun a : sv => cnt (fst a) < f) (rnd f (stack ++ [n])) _
+                            (s6, vs3) SOutOfFuel (Pstep _) Hlt V2 I)
+      as [i [[sa va] [_ [Ha Hv]]]].
+    apply (IH _ _ _ _ Ha Hv).
+  - discriminate.
+Qed.
+
+(* accounting of the validation nodes: what a visit appends was pending before *)
+Lemma rnd_vals : forall f stack n s vs s' vs',
+  rnd f stack n (s, vs) = SOk (s', vs') -> length vs' + pend s' <= length vs + pend s.
+Proof.
+  induction f as [|f IH]; intros stack n s vs s' vs' H; [discriminate|].
+  destruct (g_producer g n) as [e|] eqn:Hp.
+  2:{ cbn [recompute_node_dirty] in H. rewrite Hp in H.
+      assert (E : st_edge s' = st_edge s /\ vs' = vs).
+      { destruct (n_known (st_node s n)); inversion H; subst; [split; reflexivity|].
+        split; [|reflexivity]. cbn [set_dirty upd_node st_edge]. apply st_edge_stat_if_necessary. }
+      destruct E as [E ->].
+      pose proof (wsum_mono (fun e => length (ei_vals (g_edge g e))) s s'
+                            (nonone_of_marks_eq s s' (fun e => f_equal (fun m => es_mark (m e)) E)) N). lia. }
+  destruct (mark_of s e) eqn:Hm.
+  2:{ cbn [recompute_node_dirty] in H. rewrite Hp, Hm in H. discriminate. }
+  2:{ cbn [recompute_node_dirty] in H. rewrite Hp, Hm in H. inversion H; subst. lia. }
+  destruct (rnd_none_ok f stack n e s vs Hp Hm s' vs' H)
+    as [s3 [vs3 [s5 [new_ins [s6 [s7 [s8 [d [V1 [L35 [D56 [V2 [L78 Hs']]]]]]]]]]]]].
+  pose proof (enter_flip (fun e => length (ei_vals (g_edge g e))) n e s Hp Hm) as Hflip. cbn beta in Hflip.
+  set (s2 := stat_outputs w (enter_edge s e) (edge_outs g e)) in *.
+  set (R := fun a b : sv => length (snd b) + pend (fst b) <= length (snd a) + pend (fst a)).
+  assert (Hstep : forall l i (a0 a1 : sv), In i l -> True -> rnd f (stack ++ [n]) i a0 = SOk a1 ->
+                                   True /\ R a0 a1 /\ True).
+  { intros l i [sa va] [sb vb] _ _ Hv. split; [exact I|]. split; [|exact I]. apply (IH _ _ _ _ _ _ Hv). }
+  assert (Rrefl : forall a, R a a) by (intros a; unfold R; lia).
+  assert (Rtrans : forall a b c, R a b -> R b c -> R a c) by (intros a b c; unfold R; lia).
+  destruct (visit_all_rel (fun _ => True) R (fun _ _ => True) _ Rrefl Rtrans (fun _ _ _ _ _ => I) _ (Hstep _)
+                          (s2, vs ++ ei_vals (g_edge g e)) (s3, vs3) I V1) as [_ [R1 _]].
+  destruct (visit_all_rel (fun _ => True) R (fun _ _ => True) _ Rrefl Rtrans (fun _ _ _ _ _ => I) _ (Hstep _)
+                          (s6, vs3) (s7, vs') I V2) as [_ [R2 _]].
+  unfold R in R1, R2. cbn [fst snd] in R1, R2. rewrite app_length in R1.
+  assert (H36 : pend s6 <= pend s3).
+  { apply wsum_mono. eapply nonone_trans; [eapply nonone_of_local; exact L35|eapply nonone_of_deps_step; exact D56]. }
+  assert (H79 : pend s' <= pend s7).
+  { apply wsum_mono. eapply nonone_trans; [eapply nonone_of_local; exact L78|].
+    destruct (finish_edge_props e s8 d) as [A9 [M9 _]]. rewrite <- Hs' in A9, M9.
+    intros e' He'. destruct (Nat.eq_dec e' e) as [->|Hne]; [congruence|].
+    rewrite (A9 e' Hne) in He'. exact He'. }
+  lia.
+Qed.
+
+Lemma loop_fuel : forall qf queue s found,
+  length queue + pend s <= qf -> recompute_dirty_loop g w qf queue s found <> SOutOfFuel.
+Proof.
+  induction qf as [|qf IH]; intros queue s found Hq; destruct queue as [|n queue];
+    cbn [recompute_dirty_loop]; try discriminate.
+  - cbn [length] in Hq. lia.
+  - destruct (rnd (scan_fuel g) [] n (s, [])) as [[s1 newv]|c|e|] eqn:Hv; try discriminate.
+    + apply IH. pose proof (rnd_vals _ _ _ _ _ _ _ Hv) as Hr. cbn [length] in Hr, Hq.
+      rewrite app_length. lia.
+    + exfalso. revert Hv. apply rnd_fuel. unfold scan_fuel.
+      pose proof (wsum_one_le s N). lia.
+Qed.
+
+Lemma recompute_dirty_fuel s t : recompute_dirty g w s t <> SOutOfFuel.
+Proof.
+  unfold recompute_dirty. apply loop_fuel. unfold queue_fuel. cbn [length].
+  pose proof (wsum_vals_le s N). lia.
+Qed.
+
+(* ---- the plan *)
+Fixpoint pcount (p : plan) (k : nat) : nat :=
+  match k with
+  | O => O
+  | S k' => pcount p k' + match p_want p k' with None => 1 | Some _ => O end
+  end.
+
+Definition pmono (a b : plan) : Prop := forall e, p_want b e = None -> p_want a e = None.
+
+Lemma pcount_mono a b : pmono a b -> forall k, pcount b k <= pcount a k.
+Proof.
+  intros H. induction k as [|k IH]; cbn [pcount]; [lia|].
+  destruct (p_want b k) eqn:Wb; [destruct (p_want a k); lia|]. rewrite (H k Wb). lia.
+Qed.
+
+Lemma pcount_le p k : pcount p k <= k.
+Proof. induction k as [|k IH]; cbn [pcount]; [lia|]. destruct (p_want p k); lia. Qed.
+
+Lemma pcount_flip a b e :
+  p_want a e = None -> p_want b e <> None -> pmono a b ->
+  forall k, e < k -> pcount b k < pcount a k.
+Proof.
+  intros Ha Hb Hm. induction k as [|k IH]; intros Hlt; [lia|].
+  cbn [pcount]. destruct (Nat.eq_dec k e) as [->|Hne].
+  - rewrite Ha. destruct (p_want b e); [|congruence]. pose proof (pcount_mono a b Hm e). lia.
+  - assert (e < k) by lia. specialize (IH H).
+    destruct (p_want b k) eqn:Wb; [destruct (p_want a k); lia|]. rewrite (Hm k Wb). lia.
+Qed.
+
+Lemma ast_loop_ok (P : plan -> Prop) visit : forall ins p r err p',
+  (forall i p0 r0 e0 p1, P p0 -> visit i p0 = Some (r0, e0, p1) -> P p1) ->
+  P p -> ast_loop visit ins p = Some (r, err, p') -> P p'.
+Proof.
+  induction ins as [|i ins IH]; intros p r err p' Hstep Hp H; cbn [ast_loop] in H.
+  - inversion H; subst; exact Hp.
+  - destruct (visit i p) as [[[r0 e0] p1]|] eqn:Hv; [|discriminate].
+    pose proof (Hstep i p r0 e0 p1 Hp Hv) as Hp1.
+    destruct r0.
+    + apply (IH p1 r err p' Hstep Hp1 H).
+    + destruct e0 as [m|].
+      * inversion H; subst; exact Hp1.
+      * apply (IH p1 r err p' Hstep Hp1 H).
+Qed.
+
+Lemma ast_loop_none (P : plan -> Prop) visit : forall ins p,
+  (forall i p0 r0 e0 p1, P p0 -> visit i p0 = Some (r0, e0, p1) -> P p1) ->
+  P p -> ast_loop visit ins p = None -> exists i p0, P p0 /\ visit i p0 = None.
+Proof.
+  induction ins as [|i ins IH]; intros p Hstep Hp H; cbn [ast_loop] in H; [discriminate|].
+  destruct (visit i p) as [[[r0 e0] p1]|] eqn:Hv; [|exists i, p; split; assumption].
+  pose proof (Hstep i p r0 e0 p1 Hp Hv) as Hp1.
+  destruct r0; [apply (IH p1 Hstep Hp1 H)|].
+  destruct e0 as [m|]; [discriminate|apply (IH p1 Hstep Hp1 H)].
+Qed.
+
+Lemma pmono_refl a : pmono a a.
+Proof. intros e H; exact H. Qed.
+Lemma pmono_trans a b c : pmono a b -> pmono b c -> pmono a c.
+Proof. intros H K e He. apply H, K, He. Qed.
+
+Lemma pmono_set_want p e v : pmono p (set_want p e v).
+Proof.
+  intros e' H. cbn [set_want p_want] in H. destruct (Nat.eqb e' e); [discriminate|exact H].
+Qed.
+Lemma pmono_edge_wanted p e : pmono p (edge_wanted g p e).
+Proof. intros e' H. exact H. Qed.
+
+Lemma ast_mono : forall f s dep n p r err p',
+  add_sub_target g f s dep n p = Some (r, err, p') -> pmono p p'.
+Proof.
+  induction f as [|f IH]; intros s dep n p r err p' H; [discriminate|].
+  cbn [add_sub_target] in H.
+  destruct (g_producer g n) as [e|].
+  2:{ destruct (_ && _); inversion H; subst; apply pmono_refl. }
+  destruct (es_ready (st_edge s e)); [inversion H; subst; apply pmono_refl|].
+  set (w0 := match p_want p e with None => WantNothing | Some v => v end) in *.
+  set (p1 := set_want p e w0) in *.
+  set (p2 := if (ns_dirty (st_node s n) && match w0 with WantNothing => true | _ => false end)%bool
+             then edge_wanted g (set_want p1 e WantToStart) e else p1) in *.
+  assert (M2 : pmono p p2).
+  { subst p2. destruct (_ && _).
+    - eapply pmono_trans; [apply pmono_set_want|]. eapply pmono_trans; [apply pmono_set_want|apply pmono_edge_wanted].
+    - apply pmono_set_want. }
+  destruct (negb _); [inversion H; subst; exact M2|].
+  apply (pmono_trans p p2 p' M2).
+  apply (ast_loop_ok (fun q => pmono p2 q) _ _ _ _ _ _ (fun i p0 r0 e0 p1' Hq Hv => pmono_trans _ _ _ Hq (IH _ _ _ _ _ _ _ Hv))
+                     (pmono_refl p2) H).
+Qed.
+
+Lemma ast_fuel : forall f s dep n p, pcount p N < f -> add_sub_target g f s dep n p <> None.
+Proof.
+  induction f as [|f IH]; intros s dep n p Hc; [lia|].
+  cbn [add_sub_target].
+  destruct (g_producer g n) as [e|] eqn:Hp.
+  2:{ destruct (_ && _); discriminate. }
+  destruct (es_ready (st_edge s e)); [discriminate|].
+  set (w0 := match p_want p e with None => WantNothing | Some v => v end) in *.
+  set (p1 := set_want p e w0) in *.
+  set (p2 := if (ns_dirty (st_node s n) && match w0 with WantNothing => true | _ => false end)%bool
+             then edge_wanted g (set_want p1 e WantToStart) e else p1) in *.
+  destruct (p_want p e) as [v|] eqn:Wp; cbn [negb]; [discriminate|].
+  assert (M2 : pmono p p2).
+  { subst p2. destruct (_ && _).
+    - eapply pmono_trans; [apply pmono_set_want|]. eapply pmono_trans; [apply pmono_set_want|apply pmono_edge_wanted].
+    - apply pmono_set_want. }
+  assert (W2 : p_want p2 e <> None).
+  { subst p2 p1. destruct (_ && _); cbn [edge_wanted set_want p_want]; rewrite Nat.eqb_refl; discriminate. }
+  pose proof (pcount_flip p p2 e Wp W2 M2 N (Hwf n e Hp)) as Hlt.
+  intros H.
+  assert (Hq2 : pcount p2 N < f) by lia.
+  destruct (ast_loop_none (fun q => pcount q N < f) _ _ p2
+              (fun i p0 r0 e0 p1' Hq Hv => Nat.le_lt_trans _ _ _ (pcount_mono _ _ (ast_mono _ _ _ _ _ _ _ _ Hv) N) Hq)
+              Hq2 H) as [i [p0 [Hq Hv]]].
+  apply (IH _ _ _ _ Hq Hv).
+Qed.
+
+Lemma plan_add_target_fuel s n p : plan_add_target g s n p <> None.
+Proof. apply ast_fuel. unfold plan_fuel. pose proof (pcount_le p N). lia. Qed.
+
+Lemma avt_fuel : forall vnodes s p, add_validation_targets g s vnodes p <> ScanOutOfFuel.
+Proof.
+  induction vnodes as [|v vnodes IH]; intros s p; cbn [add_validation_targets]; [discriminate|].
+  destruct (g_producer g v) as [ve|]; [|apply IH].
+  destruct (es_ready (st_edge s ve)); [apply IH|].
+  pose proof (plan_add_target_fuel s v p) as Hf.
+  destruct (plan_add_target g s v p) as [[[r err] p']|]; [|congruence].
+  destruct r; [apply IH|]. destruct err as [[m d]|]; discriminate.
+Qed.
+
+Lemma bat_fuel s p t : builder_add_target g w s p t <> ScanOutOfFuel.
+Proof.
+  unfold builder_add_target. pose proof (recompute_dirty_fuel s t) as Hr.
+  destruct (recompute_dirty g w s t) as [[s1 vn]|c|e|]; try discriminate; [|congruence].
+  destruct (match g_producer g t with Some e => negb (es_ready (st_edge s1 e)) | None => true end).
+  - pose proof (plan_add_target_fuel s1 t p) as Hf.
+    destruct (plan_add_target g s1 t p) as [[[r err] p']|]; [|congruence].
+    destruct r; [apply avt_fuel|]. destruct err as [[m d]|]; discriminate.
+  - apply avt_fuel.
+Qed.
+
+(* the fuel is never the reason for a result: the recursion depth is bounded by the number of
+   statements (each nested frame holds a different statement InStack), the queue of validation
+   nodes by their total number *)
+Theorem scan_fuel_sufficient targets : scan g w targets <> ScanOutOfFuel.
+Proof.
+  unfold scan. generalize (init_state g) init_plan.
+  induction targets as [|t targets IH]; intros s p; cbn [add_targets]; [discriminate|].
+  pose proof (bat_fuel s p t) as Hb.
+  destruct (builder_add_target g w s p t); try discriminate; [congruence|apply IH].
+Qed.
+
+End Fuel.
+
+(* ================================================================== Part 4: C17 completeness *)
+(* inputs are never removed *)
+Definition keeps (a b : sstate) : Prop := forall e, incl (ins_of a e) (ins_of b e).
+
+Lemma keeps_refl a : keeps a a.
+Proof. intros e. apply incl_refl. Qed.
+Lemma keeps_trans a b c : keeps a b -> keeps b c -> keeps a c.
+Proof. intros H K e. eapply incl_tran; [apply H|apply K]. Qed.
+Lemma keeps_of_ins_eq a b : (forall e, ins_of b e = ins_of a e) -> keeps a b.
+Proof. intros H e. rewrite H. apply incl_refl. Qed.
+Lemma keeps_of_deps_step e a b l : deps_step e a b l -> keeps a b.
+Proof.
+  intros [H1 [_ [H3 _]]] e' x Hx. destruct (Nat.eq_dec e' e) as [->|Hne].
+  - apply H3. left; exact Hx.
+  - rewrite (H1 e' Hne). exact Hx.
+Qed.
+
+Lemma visit_all_simple (R : sstate -> sstate -> Prop) f st :
+  (forall a, R a a) -> (forall a b c, R a b -> R b c -> R a c) ->
+  (forall i s vs s' vs', rnd f st i (s, vs) = SOk (s', vs') -> R s s') ->
+  forall l s vs s' vs', visit_all (rnd f st) l (s, vs) = SOk (s', vs') -> R s s'.
+Proof.
+  intros Rrefl Rtrans Hone l s vs s' vs' V.
+  destruct (visit_all_rel (fun _ => True) (fun a b : sv => R (fst a) (fst b)) (fun _ _ => True) (rnd f st)
+                          (fun a => Rrefl (fst a)) (fun a b c => Rtrans (fst a) (fst b) (fst c))
+                          (fun _ _ _ _ _ => I) l) with (a := (s, vs)) (a' := (s', vs')) as [_ [HR _]];
+    [|exact I|exact V|exact HR].
+  intros i [sa va] [sb vb] _ _ Hv. split; [exact I|]. split; [|exact I]. apply (Hone _ _ _ _ _ Hv).
+Qed.
+
+Lemma rnd_keeps : forall f stack n s vs s' vs',
+  rnd f stack n (s, vs) = SOk (s', vs') -> keeps s s'.
+Proof.
+  induction f as [|f IH]; intros stack n s vs s' vs' H; [discriminate|].
+  destruct (g_producer g n) as [e|] eqn:Hp.
+  2:{ cbn [recompute_node_dirty] in H. rewrite Hp in H. apply keeps_of_ins_eq.
+      assert (E : st_edge s' = st_edge s).
+      { destruct (n_known (st_node s n)); inversion H; subst; [reflexivity|].
+        cbn [set_dirty upd_node st_edge]. apply st_edge_stat_if_necessary. }
+      intros e. rewrite E. reflexivity. }
+  destruct (mark_of s e) eqn:Hm.
+  2:{ cbn [recompute_node_dirty] in H. rewrite Hp, Hm in H. discriminate. }
+  2:{ cbn [recompute_node_dirty] in H. rewrite Hp, Hm in H. inversion H; subst. apply keeps_refl. }
+  destruct (rnd_none_ok f stack n e s vs Hp Hm s' vs' H)
+    as [s3 [vs3 [s5 [new_ins [s6 [s7 [s8 [d [V1 [L35 [D56 [V2 [L78 Hs']]]]]]]]]]]]].
+  destruct (s2_props e s) as [A2 [M2 I2]].
+  set (s2 := stat_outputs w (enter_edge s e) (edge_outs g e)) in *.
+  pose proof (visit_all_simple keeps f (stack ++ [n]) keeps_refl keeps_trans (IH (stack ++ [n])) _ _ _ _ _ V1) as K23.
+  pose proof (visit_all_simple keeps f (stack ++ [n]) keeps_refl keeps_trans (IH (stack ++ [n])) _ _ _ _ _ V2) as K67.
+  destruct (finish_edge_props e s8 d) as [A9 [M9 I9]]. rewrite <- Hs' in A9, M9, I9.
+  apply (keeps_trans s s2 s').
+  { apply keeps_of_ins_eq. intros e'. destruct (Nat.eq_dec e' e) as [->|Hne]; [exact I2|].
+    rewrite (A2 e' Hne). reflexivity. }
+  apply (keeps_trans s2 s3 s' K23).
+  apply (keeps_trans s3 s5 s'); [apply keeps_of_ins_eq, (ins_eq_of_local e); exact L35|].
+  apply (keeps_trans s5 s6 s'); [eapply keeps_of_deps_step; exact D56|].
+  apply (keeps_trans s6 s7 s' K67).
+  apply (keeps_trans s7 s8 s'); [apply keeps_of_ins_eq, (ins_eq_of_local e); exact L78|].
+  apply keeps_of_ins_eq. intros e'. destruct (Nat.eq_dec e' e) as [->|Hne]; [exact I9|].
+  rewrite (A9 e' Hne). reflexivity.
+Qed.
+
+(* Appendix D.2 (a): the Done edges are closed under the relation and ranked by finish order *)
+Definition ranked_by (rank : edge -> nat) (K : nat) (s : sstate) : Prop :=
+  forall e, mark_of s e = VisitDone ->
+    rank e < K /\
+    forall i e', In i (ins_of s e) -> g_producer g i = Some e' ->
+                 mark_of s e' = VisitDone /\ rank e' < rank e.
+Definition Ranked (s : sstate) : Prop := exists rank K, ranked_by rank K s.
+
+(* the Done part of the state is the same *)
+Definition same_done (a b : sstate) : Prop :=
+  forall e, (mark_of b e = VisitDone <-> mark_of a e = VisitDone) /\
+            (mark_of a e = VisitDone -> ins_of b e = ins_of a e).
+
+Lemma ranked_same_done rank K a b : same_done a b -> ranked_by rank K a -> ranked_by rank K b.
+Proof.
+  intros H HR e He. destruct (H e) as [Hiff Hins]. apply Hiff in He.
+  destruct (HR e He) as [HK Hsucc]. split; [exact HK|].
+  intros i e' Hi Hp. rewrite (Hins He) in Hi. destruct (Hsucc i e' Hi Hp) as [Hd Hlt].
+  split; [apply (proj1 (H e')); exact Hd|exact Hlt].
+Qed.
+
+Lemma same_done_of_local e a b : local e a b -> same_done a b.
+Proof.
+  intros L e'. rewrite (marks_eq_of_local e a b L e'), (ins_eq_of_local e a b L e'). tauto.
+Qed.
+
+Lemma same_done_of_others e a b :
+  (forall e', e' <> e -> st_edge b e' = st_edge a e') ->
+  mark_of a e <> VisitDone -> mark_of b e <> VisitDone -> same_done a b.
+Proof.
+  intros H Ha Hb e'. destruct (Nat.eq_dec e' e) as [->|Hne]; [tauto|].
+  rewrite (H e' Hne). tauto.
+Qed.
+
+Lemma rnd_ranked : forall f stack n s vs s' vs',
+  rnd f stack n (s, vs) = SOk (s', vs') -> Ranked s -> Ranked s'.
+Proof.
+  induction f as [|f IH]; intros stack n s vs s' vs' H HR; [discriminate|].
+  destruct (g_producer g n) as [e|] eqn:Hp.
+  2:{ cbn [recompute_node_dirty] in H. rewrite Hp in H.
+      assert (E : st_edge s' = st_edge s).
+      { destruct (n_known (st_node s n)); inversion H; subst; [reflexivity|].
+        cbn [set_dirty upd_node st_edge]. apply st_edge_stat_if_necessary. }
+      destruct HR as [rank [K HR]]. exists rank, K. apply (ranked_same_done rank K s s'); [|exact HR].
+      intros e. rewrite E. tauto. }
+  destruct (mark_of s e) eqn:Hm.
+  2:{ cbn [recompute_node_dirty] in H. rewrite Hp, Hm in H. discriminate. }
+  2:{ cbn [recompute_node_dirty] in H. rewrite Hp, Hm in H. inversion H; subst. exact HR. }
+  destruct (rnd_none_ok f stack n e s vs Hp Hm s' vs' H)
+    as [s3 [vs3 [s5 [new_ins [s6 [s7 [s8 [d [V1 [L35 [D56 [V2 [L78 Hs']]]]]]]]]]]]].
+  destruct (s2_props e s) as [A2 [M2 I2]].
+  set (s2 := stat_outputs w (enter_edge s e) (edge_outs g e)) in *.
+  (* the two runs of visits: Ranked kept, ext, every visited input Done afterwards *)
+  set (R := fun a b : sv => ext (fst a) (fst b)).
+  set (Q := fun (i : node) (a : sv) => done_of i (fst a)).
+  assert (Rrefl : forall a, R a a) by (intros a; apply ext_refl).
+  assert (Rtrans : forall a b c, R a b -> R b c -> R a c) by (intros a b c; apply ext_trans).
+  assert (Qst : forall i a0 a1, R a0 a1 -> Q i a0 -> Q i a1).
+  { intros i a0 a1 H1 HQ e' He'. apply (ext_done (fst a0) (fst a1) e' H1). apply HQ; exact He'. }
+  assert (Hstep : forall l i (a0 a1 : sv), In i l -> Ranked (fst a0) -> rnd f (stack ++ [n]) i a0 = SOk a1 ->
+                                   Ranked (fst a1) /\ R a0 a1 /\ Q i a1).
+  { intros l i [sa va] [sb vb] _ Ha Hv. destruct (rnd_ok _ _ _ _ _ _ _ Hv) as [E [_ D]].
+    split; [apply (IH _ _ _ _ _ _ Hv Ha)|]. split; [exact E|exact D]. }
+  assert (HR2 : Ranked s2).
+  { destruct HR as [rank [K HR]]. exists rank, K. apply (ranked_same_done rank K s s2); [|exact HR].
+    apply (same_done_of_others e); [exact A2|rewrite Hm; discriminate|rewrite M2; discriminate]. }
+  destruct (visit_all_rel (fun a : sv => Ranked (fst a)) R Q _ Rrefl Rtrans Qst _ (Hstep _)
+                          (s2, vs ++ ei_vals (g_edge g e)) (s3, vs3) HR2 V1) as [HR3 [E23 Q3]].
+  cbn [fst] in HR3, E23.
+  assert (M3 : mark_of s3 e = VisitInStack).
+  { rewrite (ext_marked s2 s3 e E23); [exact M2|rewrite M2; discriminate]. }
+  assert (I3 : ins_of s3 e = ins_of s2 e).
+  { rewrite (ext_marked s2 s3 e E23); [reflexivity|rewrite M2; discriminate]. }
+  assert (M5 : mark_of s5 e = VisitInStack) by (rewrite (proj1 (proj2 L35)); exact M3).
+  assert (M6 : mark_of s6 e = VisitInStack) by (rewrite (proj1 (proj2 D56)); exact M5).
+  assert (HR6 : Ranked s6).
+  { destruct HR3 as [rank [K HR3]]. exists rank, K.
+    apply (ranked_same_done rank K s5 s6).
+    - apply (same_done_of_others e); [exact (proj1 D56)|rewrite M5; discriminate|rewrite M6; discriminate].
+    - apply (ranked_same_done rank K s3 s5); [eapply same_done_of_local; exact L35|exact HR3]. }
+  destruct (visit_all_rel (fun a : sv => Ranked (fst a)) R Q _ Rrefl Rtrans Qst _ (Hstep _)
+                          (s6, vs3) (s7, vs') HR6 V2) as [HR7 [E67 Q7]].
+  cbn [fst] in HR7, E67.
+  assert (M7 : mark_of s7 e = VisitInStack).
+  { rewrite (ext_marked s6 s7 e E67); [exact M6|rewrite M6; discriminate]. }
+  assert (I7 : ins_of s7 e = ins_of s6 e).
+  { rewrite (ext_marked s6 s7 e E67); [reflexivity|rewrite M6; discriminate]. }
+  assert (M8 : mark_of s8 e = VisitInStack) by (rewrite (proj1 (proj2 L78)); exact M7).
+  (* every input of e at the end was visited, and is Done in s8 *)
+  assert (D8 : forall i, In i (ins_of s8 e) -> done_of i s8).
+  { intros i Hi. rewrite (proj2 (proj2 L78)), I7 in Hi.
+    apply (proj1 (proj2 (proj2 D56))) in Hi.
+    assert (D7 : done_of i s7).
+    { destruct Hi as [Hi|Hi].
+      - rewrite (proj2 (proj2 L35)), I3 in Hi.
+        pose proof (Q3 i Hi) as D3. unfold Q in D3. cbn [fst] in D3.
+        intros e' He'. apply (ext_done s6 s7 e' E67).
+        destruct (Nat.eq_dec e' e) as [->|Hne].
+        + specialize (D3 e He'). congruence.
+        + rewrite (proj1 D56 e' Hne). rewrite (marks_eq_of_local e s3 s5 L35 e'). apply D3; exact He'.
+      - apply (Q7 i Hi). }
+    intros e' He'. rewrite (marks_eq_of_local e s7 s8 L78 e'). apply D7; exact He'. }
+  destruct HR7 as [rank [K HR7]].
+  assert (HR8 : ranked_by rank K s8).
+  { apply (ranked_same_done rank K s7 s8); [eapply same_done_of_local; exact L78|exact HR7]. }
+  destruct (finish_edge_props e s8 d) as [A9 [M9 I9]]. rewrite <- Hs' in A9, M9, I9.
+  exists (fun x => if Nat.eqb x e then K else rank x), (S K).
+  intros x Hx. destruct (Nat.eqb_spec x e) as [->|Hne].
+  - split; [lia|]. intros i e' Hi He'. rewrite I9 in Hi.
+    pose proof (D8 i Hi e' He') as Hd.
+    assert (Hne : e' <> e) by (intros ->; congruence).
+    split; [rewrite (A9 e' Hne); exact Hd|].
+    destruct (Nat.eqb_spec e' e) as [->|_]; [contradiction|].
+    apply (proj1 (HR8 e' Hd)).
+  - rewrite (A9 x Hne) in Hx. destruct (HR8 x Hx) as [HK Hsucc]. split; [lia|].
+    intros i e' Hi He'. rewrite (A9 x Hne) in Hi. destruct (Hsucc i e' Hi He') as [Hd Hlt].
+    assert (Hne' : e' <> e) by (intros ->; congruence).
+    split; [rewrite (A9 e' Hne'); exact Hd|].
+    destruct (Nat.eqb_spec e' e) as [->|_]; [contradiction|exact Hlt].
 Qed.
 
 End Proofs.
